@@ -60,7 +60,7 @@ def choose_kinds(rec, seed):
     return out
 
 
-SLOTSETS = [[1, 3, 5], [0, 2, 6], [2, 4, 5], [0, 3, 6]]
+SLOTSETS = [[1, 3, 5], [0, 2, 7], [2, 4, 6], [0, 3, 7]]
 
 
 def render_program(rec, seed):
@@ -83,7 +83,7 @@ def render_program(rec, seed):
     if mode >= 2:
         # the include statement is planted like a fault block of its own, so that it never lands between a fault statement
         # and the set-up statements that belong to it (e.g. '.byte' and its '.even')
-        main_plans.append((rec["prog"] % 7, {"pre": [], "stmt": ".include /inc.mac/" if mode == 2 else ".include /outer.mac/", "post": [],
+        main_plans.append((rec["prog"] % 8, {"pre": [], "stmt": ".include /inc.mac/" if mode == 2 else ".include /outer.mac/", "post": [],
                                              "culprit": (0, 8), "fs": {}}))
     main_text, _ = plant(main_plans, "m")
     infiles = ["main.mac"]
@@ -97,6 +97,12 @@ def render_program(rec, seed):
         if mode == 3:
             files["outer.mac"] = "\tnop\nouter1:\t.word outer1\n\t.include /inc.mac/\n\tnop\n"
     files["main.mac"] = "".join(h + "\n" for h in head) + main_text
+    if (rec["prog"] // 4) % 2 == 1:
+        # every other program: no newline at the end of its files (a fault planted in the last slot then stands on the last line,
+        # which is not terminated)
+        for n in ("main.mac", "second.mac", "inc.mac"):
+            if n in files:
+                files[n] = files[n].rstrip("\n")
     files.update(fs)
     return files, infiles, kinds
 
